@@ -211,9 +211,38 @@ func hasLoop(f *ssa.Function) bool {
 }
 
 func (fl *flattener) run(f *ssa.Function, bind map[ssa.Value]*term, depth int) []fpath {
-	if hasLoop(f) {
-		fl.fail = shortFn(f) + " has a loop"
-		return nil
+	return fl.runFrom(f, nil, bind, depth)
+}
+
+// flattenFrom summarises the loop-free tail of f that starts at block start
+// (for instance the code after a descent loop): values defined before start,
+// phis of start included, are opaque symbols.
+func flattenFrom(p *Program, f *ssa.Function, start *ssa.BasicBlock, bind map[ssa.Value]*term, scope func(*ssa.Function) bool) ([]fpath, string) {
+	fl := &flattener{p: p, maxPaths: 64, maxDepth: 3, scope: scope}
+	paths := fl.runFrom(f, start, bind, 0)
+	if fl.fail != "" {
+		return nil, fl.fail
+	}
+	sort.Slice(paths, func(i, j int) bool { return paths[i].pcKey()+paths[i].resKey() < paths[j].pcKey()+paths[j].resKey() })
+	return paths, ""
+}
+
+func (fl *flattener) runFrom(f *ssa.Function, start *ssa.BasicBlock, bind map[ssa.Value]*term, depth int) []fpath {
+	if start == nil {
+		if hasLoop(f) {
+			fl.fail = shortFn(f) + " has a loop"
+			return nil
+		}
+	} else {
+		region := reachableFrom(start, nil)
+		for h := range region {
+			for _, pr := range h.Preds {
+				if region[pr] && h.Dominates(pr) {
+					fl.fail = "the region after " + start.String() + " of " + shortFn(f) + " has a loop"
+					return nil
+				}
+			}
+		}
 	}
 	var out []fpath
 	var walk func(b, pred *ssa.BasicBlock, env map[ssa.Value]*term, pc []string, eff []effect, start int)
@@ -333,7 +362,10 @@ func (fl *flattener) run(f *ssa.Function, bind map[ssa.Value]*term, depth int) [
 	for k, v := range bind {
 		env[k] = v
 	}
-	walk(f.Blocks[0], nil, env, nil, nil, 0)
+	if start == nil {
+		start = f.Blocks[0]
+	}
+	walk(start, nil, env, nil, nil, 0)
 	return out
 }
 
